@@ -3,4 +3,5 @@ import LasModel.Gen.Tables
 import LasModel.Gen.Funs
 import LasModel.Lemmas.Bits
 import LasModel.Audit.C20
+import LasModel.Audit.C09
 import LasModel.Driver.Main
